@@ -1,4 +1,5 @@
 import Vanguard.Lemmas.Serve
+import Vanguard.Gen.Facts
 /-!
   C18 — At most one backend dispatch per request, none if rejected; context released.
 
@@ -139,5 +140,52 @@ theorem unknown_dispatch_iff (w : World) (sc : Scenario) :
         · simp [hu] at h
   · rintro ⟨hv, hu⟩
     rw [unknown_endpoint_dispatch w sc hv]; simp [hu]
+
+/-! ### source tie: `classifyRequest`
+
+  `Gen.classifyRequestSrc` is **translated from `classifyRequest` (transcoder.go) on every run**, statement by
+  statement (header look-ups, `len` tests, the tagless `switch` with its `fallthrough`, every `return`), over the
+  request's method, header values and first query values; the handler types it returns become the constructors of
+  `Gen.ClientHandlerSrc`.  The theorem says that the model's classification *is* that function, for every request:
+  a reordered case, a changed content-type prefix, a dropped `Connect-Protocol-Version` test or a new handler type
+  breaks it. -/
+
+/-- The client wire form each client protocol handler of the source stands for. -/
+def formOfHandler : Gen.ClientHandlerSrc → ClientForm
+  | .connectUnaryGetClientProtocol => .connectGet
+  | .connectUnaryPostClientProtocol => .connectPost
+  | .connectStreamClientProtocol => .connectStream
+  | .grpcClientProtocol => .grpc
+  | .grpcWebClientProtocol => .grpcWeb
+  | .restClientProtocol => .rest
+
+theorem source_classify_is_model (r : Req) :
+    classifyRequest r = (Gen.classifyRequestSrc s hasPrefix r.method r.headers.values r.query.get).map formOfHandler := by
+  have h1 : s "1" = [0x31] := by decide +kernel
+  unfold classifyRequest Gen.classifyRequestSrc
+  simp only []
+  rcases hc : r.headers.values (s "Content-Type") with _ | ⟨ct, _ | ⟨ct2, rest⟩⟩
+  · rcases hv : r.headers.values (s "Connect-Protocol-Version") with _ | ⟨v, _ | ⟨v2, vr⟩⟩ <;>
+      simp [h1, sGET] <;> (repeat' split) <;> simp_all [formOfHandler]
+  · rcases hv : r.headers.values (s "Connect-Protocol-Version") with _ | ⟨v, _ | ⟨v2, vr⟩⟩ <;>
+      simp [h1, sGET] <;> (repeat' split) <;> simp_all [formOfHandler]
+  · simp
+
+/-- **A request the source's `classifyRequest` cannot classify reaches no handler** (it is answered 415), for
+    every configuration and backend script. -/
+theorem unclassifiable_request_no_dispatch (w : World) (sc : Scenario)
+    (h : Gen.classifyRequestSrc s hasPrefix sc.req.method sc.req.headers.values sc.req.query.get = none) :
+    (serve w sc).dispatch = .none := by
+  apply rejected_no_dispatch w sc 415 none
+  have hm := source_classify_is_model sc.req
+  rw [h] at hm
+  unfold validate
+  rw [hm]; rfl
+
+/-- Non-vacuity: two `Content-Type` values cannot be classified; `application/grpc+proto` is gRPC. -/
+example : Gen.classifyRequestSrc s hasPrefix sPOST (fun k => if k == s "Content-Type" then [s "a/b", s "a/c"] else []) (fun _ => []) = none := by
+  decide +kernel
+example : Gen.classifyRequestSrc s hasPrefix sPOST (fun k => if k == s "Content-Type" then [s "application/grpc+proto"] else []) (fun _ => [])
+    = some .grpcClientProtocol := by decide +kernel
 
 end Vanguard.C18
